@@ -95,6 +95,7 @@ type OptSet struct {
 	SpanOrder int     // -1 default
 	A16       int     // -1 default
 	A32       int     // -1 default
+	Stats     int     // bit 1: WithCompressionRatioStats, bit 2: WithSchemaStats, bit 4: WithProducerStats (silent statistics options)
 }
 
 func DefaultOpts() OptSet {
@@ -102,6 +103,9 @@ func DefaultOpts() OptSet {
 }
 
 func (o OptSet) String() string {
+	if o.Stats != 0 {
+		return fmt.Sprintf("limit=%s reset=%v zstd=%d span=%d a16=%d a32=%d stats=%d", o.Limit, o.Reset, o.Zstd, o.SpanOrder, o.A16, o.A32, o.Stats)
+	}
 	return fmt.Sprintf("limit=%s reset=%v zstd=%d span=%d a16=%d a32=%d", o.Limit, o.Reset, o.Zstd, o.SpanOrder, o.A16, o.A32)
 }
 
@@ -154,6 +158,15 @@ func (o OptSet) Options() []cfg.Option {
 	if o.A32 >= 0 {
 		out = append(out, cfg.WithOrderAttrs32By(cfg.OrderAttrs32By(o.A32)))
 	}
+	if o.Stats&1 != 0 {
+		out = append(out, cfg.WithCompressionRatioStats())
+	}
+	if o.Stats&2 != 0 {
+		out = append(out, cfg.WithSchemaStats())
+	}
+	if o.Stats&4 != 0 {
+		out = append(out, cfg.WithProducerStats())
+	}
 	return out
 }
 
@@ -172,6 +185,9 @@ func RandomOpts(r *rand.Rand) OptSet {
 	o.SpanOrder = r.IntN(8) - 1
 	o.A16 = r.IntN(5) - 1
 	o.A32 = r.IntN(6) - 1
+	// statistics options change nothing on the wire; derived from the draws above (no extra draw, so that the
+	// cases of earlier rounds stay what they were): three in eight option sets enable some of them
+	o.Stats = []int{0, 0, 0, 0, 0, 1, 1, 5}[(o.SpanOrder+1+(o.A16+1)*8+(o.A32+1)*40+o.Zstd+1)%8]
 	return o
 }
 
